@@ -10,39 +10,51 @@ makes compile() raise a JSONPathError; nothing outside the grammar is silently
 given a meaning."
 
 `C04_statement` is the property at full strength against the independent
-recogniser `Spec.Grammar` (+ `Spec.Valid`): whatever compile() accepts, the RFC
-derives (verdict `valid` or — for the blanks inside singular-query brackets that
-the RFC's own ABNF and its errata disagree on, D28 — `disputed`), with the same
-abstract query.  Proved here:
-
-* `C04_structural`: the statement for every accepted string whose query has no
-  filter selector: the ABNF derives that string and the derivation abstracts to
-  exactly the query the implementation built (parser SOUNDNESS for the whole
-  segment/selector language, by inverting the lexer run and the parser run).
-  Contrapositive `C04_structural_reject`: a string the ABNF does not derive is
-  never compiled to a filter-free query — it raises (C13_compile: a JSONPathError)
-  or, at worst, is read as containing a filter.
-* `C13_compile`: compile() is total and raises nothing but JSONPathErrors;
-  `C05_partial`: whatever is accepted is well-typed and in range; `C09`: string
-  literals are read exactly as the grammar says.
-
-Not proved: soundness for strings compiled to queries WITH filter selectors;
-decided by the oracle search on the real code (mutation, token soup, grammar
-near-misses; judged by `Spec.judge`).
+recogniser `Spec.Grammar`; `C04` proves it for every environment and every string,
+`C04_reject` is the contrapositive the property text uses (not derivable ⇒ a
+JSONPathError).  `C04_structural` (filter-free case, with verdict `valid`) and
+`C03_C04_structural_iff` were proved first and are kept.  With `C03` (completeness)
+the language compile() accepts is exactly the RFC's, up to the disputed blanks.
 -/
 import JPV.Spec.Valid
 import JPV.Props.C05
 import JPV.Props.C13
 import JPV.Proofs.SoundStructural
+import JPV.Proofs.SoundFull
 namespace JPV.Props
 open JPV
 
-/-- the property at full strength -/
+/-- the property at full strength: whatever compile() accepts — for every environment and every string,
+filters included — the RFC 9535 grammar derives (verdict `valid`, or `disputed` for the one place where the
+RFC's ABNF and its errata disagree: blank space inside the brackets of a singular query used as a comparison
+operand, D28), the derivation abstracts (parentheses erased) to exactly the query the implementation built,
+and that query is well-typed for the environment's own signatures with all integers in the configured range -/
 def C04_statement : Prop :=
   ∀ (env : Impl.Env) (s : Str) (q : Query), Impl.compile env s = .ok q →
-    ∃ c, ((Spec.judge (sigsOfEnv env) env.minIdx env.maxIdx s = (.valid, some c)) ∨
-          (Spec.judge (sigsOfEnv env) env.minIdx env.maxIdx s = (.disputed, some c))) ∧
-      Spec.abstractSegs c = q
+    (∃ c, (Spec.parseQuery s = .valid c ∨ Spec.parseQuery s = .disputed c) ∧ Spec.abstractSegs c = q) ∧
+    Spec.wtQuery (sigsOfEnv env) q = true ∧ Spec.intsQuery env.minIdx env.maxIdx q = true
+
+/-- PROVED at full strength (parser soundness by inversion of the lexer run and of the Pratt parser run,
+`Proofs/Sf/*`; typing and ranges from `C05_partial`) -/
+theorem C04 : C04_statement := fun env s q h =>
+  ⟨Proofs.compile_sound env s q h, (C05_partial env s q h).1, (C05_partial env s q h).2⟩
+
+/-- contrapositive, the form the property text uses: a string the ABNF does not derive (neither verdict)
+makes compile() raise, and what it raises is a JSONPathError (`C13_compile`) -/
+theorem C04_reject (env : Impl.Env) (s : Str)
+    (hinv : ∀ c, Spec.parseQuery s ≠ .valid c ∧ Spec.parseQuery s ≠ .disputed c) :
+    ∃ e, Impl.compile env s = .error e ∧ e.kind.isJSONPathError = true := by
+  cases hc : Impl.compile env s with
+  | error e =>
+    refine ⟨e, rfl, ?_⟩
+    have h13 := C13_compile env s
+    rw [hc] at h13
+    exact h13
+  | ok q =>
+    obtain ⟨c, hp, _⟩ := Proofs.compile_sound env s q hc
+    rcases hp with hp | hp
+    · exact absurd hp (hinv c).1
+    · exact absurd hp (hinv c).2
 
 /-- proved: filter-free queries — what compile() accepts, the ABNF derives, with the same meaning -/
 theorem C04_structural (env : Impl.Env) (s : Str) (q : Query)
